@@ -433,7 +433,17 @@ fn run_paths(args: &Args) {
     let seed = args.seed;
     crate::run_cases("c14paths", args, move |i| {
         let mut rng = Rng::for_case(seed, "c14paths", i);
-        let ids = gen_ids(&mut rng);
+        let ids = if i == 0 {
+            // the confirmed witness: kerning masters at wght 699 and 700 on a 400..700 axis
+            let at = |u: f64| -> AnyId {
+                let loc: NormalizedLocation =
+                    [(Tag::new(b"wght"), NormalizedCoord::new((u - 400.0) / (700.0 - 400.0)))].into_iter().collect();
+                AnyId::Fe(FeId::KernInstance(loc))
+            };
+            vec![at(699.0), at(700.0), at(400.0)]
+        } else {
+            gen_ids(&mut rng)
+        };
         let paths: Vec<String> = ids.iter().map(real_path).collect();
         vec![
             S::k1("ids", S::list(ids.iter().map(s_id))),
@@ -442,10 +452,363 @@ fn run_paths(args: &Args) {
     });
 }
 
+// ------------------------------------------------------------------------------------------- emit
+
+use fontbe::orchestration::{AnyWorkId, Context as BeContext, ExtraFeaTables};
+use fontir::orchestration::{Context as FeContext, Persistable};
+use std::path::PathBuf;
+use std::sync::Arc;
+
+const TESTDATA: &str = "/repo/resources/testdata";
+
+fn fnv(bytes: &[u8]) -> String {
+    let mut h: u64 = 0xcbf29ce484222325;
+    for b in bytes {
+        h ^= *b as u64;
+        h = h.wrapping_mul(0x100000001b3);
+    }
+    format!("h{h:016x}n{}", bytes.len())
+}
+
+fn copy_dir(from: &Path, to: &Path) {
+    std::fs::create_dir_all(to).unwrap();
+    for e in std::fs::read_dir(from).unwrap() {
+        let e = e.unwrap();
+        let dst = to.join(e.file_name());
+        if e.file_type().unwrap().is_dir() {
+            copy_dir(&e.path(), &dst);
+        } else {
+            std::fs::copy(e.path(), &dst).unwrap();
+        }
+    }
+}
+
+/// every source of the test corpus that fontc accepts by extension, sorted
+fn corpus_sources() -> Vec<PathBuf> {
+    let mut out = vec![];
+    for sub in ["", "glyphs3", "glyphs2", "dspace_rules"] {
+        let dir = Path::new(TESTDATA).join(sub);
+        let Ok(rd) = std::fs::read_dir(&dir) else { continue };
+        let mut here: Vec<PathBuf> = rd
+            .filter_map(|e| e.ok().map(|e| e.path()))
+            .filter(|p| matches!(p.extension().and_then(|e| e.to_str()), Some("designspace" | "glyphs" | "glyphspackage" | "ufo")))
+            .collect();
+        here.sort();
+        out.extend(here);
+    }
+    out
+}
+
+/// The confirmed defect as a source: wght_var with a third kerning master at 699 on the 400-700 axis.
+fn close_masters_source(dir: &Path) -> PathBuf {
+    let td = Path::new(TESTDATA);
+    copy_dir(&td.join("WghtVar-Regular.ufo"), &dir.join("WghtVar-Regular.ufo"));
+    copy_dir(&td.join("WghtVar-Bold.ufo"), &dir.join("WghtVar-Bold.ufo"));
+    copy_dir(&td.join("WghtVar-Bold.ufo"), &dir.join("WghtVar-Bold699.ufo"));
+    let kern = dir.join("WghtVar-Bold699.ufo/kerning.plist");
+    let text = std::fs::read_to_string(&kern).unwrap().replace("-200", "-150");
+    std::fs::write(&kern, text).unwrap();
+    let ds = r#"<?xml version='1.0' encoding='UTF-8'?>
+<designspace format="4.1">
+  <axes>
+    <axis tag="wght" name="Weight" minimum="400" maximum="700" default="400"/>
+  </axes>
+  <sources>
+    <source filename="WghtVar-Regular.ufo" name="Wght Var Regular" familyname="Wght Var" stylename="Regular">
+      <location><dimension name="Weight" xvalue="400"/></location>
+    </source>
+    <source filename="WghtVar-Bold699.ufo" name="Wght Var Bold 699" familyname="Wght Var" stylename="Bold699">
+      <location><dimension name="Weight" xvalue="699"/></location>
+    </source>
+    <source filename="WghtVar-Bold.ufo" name="Wght Var Bold" familyname="Wght Var" stylename="Bold">
+      <location><dimension name="Weight" xvalue="700"/></location>
+    </source>
+  </sources>
+</designspace>
+"#;
+    let p = dir.join("close_masters.designspace");
+    std::fs::write(&p, ds).unwrap();
+    p
+}
+
+fn status_of<T>(r: std::thread::Result<Result<T, fontc::Error>>) -> (String, Option<T>) {
+    match r {
+        Ok(Ok(v)) => ("ok".into(), Some(v)),
+        Ok(Err(e)) => {
+            let d = format!("{e:?}");
+            let word: String = d.chars().take_while(|c| c.is_ascii_alphanumeric()).collect();
+            (format!("err:{word}"), None)
+        }
+        Err(_) => ("panic".into(), None),
+    }
+}
+
+#[derive(Default)]
+struct Audit {
+    /// (id description, kind, path, read-back equals memory); kind: "kern" | "post" | "empty-glyph" | ""
+    items: Vec<(String, &'static str, PathBuf, Option<bool>)>,
+}
+
+impl Audit {
+    fn item<T: Persistable + PartialEq>(&mut self, desc: String, kind: &'static str, path: PathBuf, mem: Option<Arc<T>>) {
+        self.item_with(desc, kind, path, mem, |a, b| a == b)
+    }
+    /// write-fonts tables: `==`, or the same bytes when serialised again (their `PartialEq` also looks at
+    /// representation details that do not survive, and do not matter to, serialisation)
+    fn table<T>(&mut self, desc: String, kind: &'static str, path: PathBuf, mem: Option<Arc<T>>)
+    where
+        T: Persistable + PartialEq + write_fonts::FontWrite + write_fonts::validate::Validate,
+    {
+        self.item_with(desc, kind, path, mem, |a, b| {
+            a == b || matches!((write_fonts::dump_table(a), write_fonts::dump_table(b)), (Ok(x), Ok(y)) if x == y)
+        })
+    }
+    fn item_with<T: Persistable>(
+        &mut self,
+        desc: String,
+        kind: &'static str,
+        path: PathBuf,
+        mem: Option<Arc<T>>,
+        eq: impl Fn(&T, &T) -> bool,
+    ) {
+        let Some(mem) = mem else { return }; // never produced in this build
+        let same = match std::fs::File::open(&path) {
+            Ok(mut f) => {
+                let ok = std::panic::catch_unwind(std::panic::AssertUnwindSafe(|| {
+                    let back = T::read(&mut f);
+                    eq(&back, &mem)
+                }));
+                Some(ok.unwrap_or(false))
+            }
+            Err(_) => None,
+        };
+        self.items.push((desc, kind, path, same));
+    }
+}
+
+/// every item that is in memory after the build, with the file it should be in
+fn audit(dir: &Path, fe: &FeContext, be: &BeContext) -> Audit {
+    use fontbe::paths::Paths as BeP;
+    use fontir::paths::Paths as FeP;
+    let mut a = Audit::default();
+    macro_rules! fe_item {
+        ($field:ident, $id:expr) => {
+            a.item(format!("fe.{}", stringify!($field)), "", FeP::target_file(dir, &$id), fe.$field.try_get());
+        };
+    }
+    fe_item!(static_metadata, FeId::StaticMetadata);
+    fe_item!(preliminary_glyph_order, FeId::PreliminaryGlyphOrder);
+    fe_item!(glyph_order, FeId::GlyphOrder);
+    fe_item!(preliminary_gdef_categories, FeId::PreliminaryGdefCategories);
+    fe_item!(gdef_categories, FeId::GdefCategories);
+    fe_item!(global_metrics, FeId::GlobalMetrics);
+    fe_item!(features, FeId::Features);
+    fe_item!(kerning_locations, FeId::KerningLocations);
+    fe_item!(colors, FeId::ColorPalettes);
+    fe_item!(paint_graph, FeId::PaintGraph);
+    for (id, v) in fe.glyphs.all() {
+        a.item(format!("{id:?}"), "", FeP::target_file(dir, &id), Some(v));
+    }
+    for (id, v) in fe.anchors.all() {
+        a.item(format!("{id:?}"), "", FeP::target_file(dir, &id), Some(v));
+    }
+    for (id, v) in fe.kerning_at.all() {
+        a.item(format!("{id:?}"), "kern", FeP::target_file(dir, &id), Some(v));
+    }
+    macro_rules! be_table {
+        ($field:ident, $id:expr, $kind:expr) => {
+            a.table(format!("be.{}", stringify!($field)), $kind, BeP::target_file(dir, &$id), be.$field.try_get());
+        };
+    }
+    macro_rules! be_item {
+        ($field:ident, $id:expr) => {
+            a.item(format!("be.{}", stringify!($field)), "", BeP::target_file(dir, &$id), be.$field.try_get());
+        };
+    }
+    be_item!(avar, BeId::Avar);
+    be_table!(cmap, BeId::Cmap, "");
+    be_table!(colr, BeId::Colr, "");
+    be_table!(cpal, BeId::Cpal, "");
+    be_table!(fvar, BeId::Fvar, "");
+    be_table!(gasp, BeId::Gasp, "");
+    be_item!(glyf, BeId::Glyf);
+    be_table!(gsub, BeId::Gsub, "");
+    be_table!(gpos, BeId::Gpos, "");
+    be_table!(gdef, BeId::Gdef, "");
+    be_item!(gvar, BeId::Gvar);
+    be_table!(post, BeId::Post, "post");
+    be_table!(meta, BeId::Meta, "");
+    be_item!(loca, BeId::Loca);
+    be_item!(loca_format, BeId::LocaFormat);
+    be_table!(maxp, BeId::Maxp, "");
+    be_table!(name, BeId::Name, "");
+    be_table!(os2, BeId::Os2, "");
+    be_table!(head, BeId::Head, "");
+    be_table!(hhea, BeId::Hhea, "");
+    be_item!(hmtx, BeId::Hmtx);
+    be_table!(hvar, BeId::Hvar, "");
+    be_table!(mvar, BeId::Mvar, "");
+    be_table!(vhea, BeId::Vhea, "");
+    be_item!(vmtx, BeId::Vmtx);
+    be_table!(vvar, BeId::Vvar, "");
+    be_item!(all_kerning_pairs, BeId::GatherIrKerning);
+    be_item!(fea_ast, BeId::FeaturesAst);
+    be_item!(fea_rs_kerns, BeId::GatherBeKerning);
+    be_item!(fea_rs_marks, BeId::Marks);
+    be_table!(stat, BeId::Stat, "");
+    be_item!(font, BeId::Font);
+    // `os2_builder` is documented as session-only ("Not serialized")
+    a.item_with(
+        "be.extra_fea_tables".into(),
+        "",
+        BeP::target_file(dir, &BeId::ExtraFeaTables),
+        be.extra_fea_tables.try_get(),
+        |x: &ExtraFeaTables, y: &ExtraFeaTables| {
+            x.name == y.name && x.head == y.head && x.hhea == y.hhea && x.vhea == y.vhea && x.os2 == y.os2
+                && x.base == y.base && x.stat == y.stat && x.debg == y.debg
+        },
+    );
+    for (id, v) in be.glyphs.all() {
+        if let AnyWorkId::Be(bid) = &id {
+            // no PartialEq: compare name and binary glyph
+            let kind = if matches!(v.data, write_fonts::tables::glyf::Glyph::Empty) { "empty-glyph" } else { "" };
+            a.item_with(format!("{id:?}"), kind, BeP::target_file(dir, bid), Some(v), |x: &fontbe::orchestration::Glyph, y| {
+                x.name == y.name && x.to_bytes() == y.to_bytes()
+            });
+        }
+    }
+    for (id, v) in be.gvar_fragments.all() {
+        if let AnyWorkId::Be(bid) = &id {
+            // no PartialEq: compare the Debug rendering (all fields, f64 printed exactly enough to differ)
+            a.item_with(format!("{id:?}"), "", BeP::target_file(dir, bid), Some(v), |x: &fontbe::orchestration::GvarFragment, y| {
+                format!("{x:?}") == format!("{y:?}")
+            });
+        }
+    }
+    for (id, v) in be.kern_fragments.all() {
+        if let AnyWorkId::Be(bid) = &id {
+            a.item(format!("{id:?}"), "", BeP::target_file(dir, bid), Some(v));
+        }
+    }
+    a
+}
+
+fn walk_files(dir: &Path, out: &mut Vec<PathBuf>) {
+    if let Ok(rd) = std::fs::read_dir(dir) {
+        for e in rd.flatten() {
+            let p = e.path();
+            if p.is_dir() {
+                walk_files(&p, out);
+            } else {
+                out.push(p);
+            }
+        }
+    }
+}
+
+fn emit_case(i: usize, sources: &[PathBuf]) -> Vec<S> {
+    let scratch = tempfile::tempdir().expect("tempdir");
+    let source_path = if i == 0 {
+        close_masters_source(&scratch.path().join("src"))
+    } else {
+        sources[(i - 1) % sources.len()].clone()
+    };
+    // every other pass over the corpus builds with different flags
+    let pass = if i == 0 { 0 } else { (i - 1) / sources.len() };
+    let flags = match pass % 3 {
+        0 => fontc::Flags::default(),
+        1 => fontc::Flags::default() | fontc::Flags::FLATTEN_COMPONENTS | fontc::Flags::KEEP_DIRECTION,
+        _ => fontc::Flags::DECOMPOSE_COMPONENTS | fontc::Flags::PROPAGATE_ANCHORS,
+    };
+    let label = source_path.strip_prefix(TESTDATA).unwrap_or(&source_path).to_string_lossy().to_string();
+    let mut fields = vec![S::k1("source", S::str(&label)), S::k1("flags", S::usize(flags.bits() as usize))];
+
+    let plain = std::panic::catch_unwind(|| {
+        let source = fontc::Input::new(&source_path)?.create_source()?;
+        fontc::generate_font(source, fontc::Options { flags, ..Default::default() })
+    });
+    let (plain_status, plain_bytes) = status_of(plain);
+
+    let ir_dir = scratch.path().join("build");
+    let emit = std::panic::catch_unwind(|| {
+        let source = fontc::Input::new(&source_path)?.create_source()?;
+        let options = fontc::Options { flags, ir_dir: Some(ir_dir.clone()), ..Default::default() };
+        fontc::verif_generate_font_contexts(source, &options)
+    });
+    let (emit_status, ctx) = status_of(emit);
+
+    let (Some(plain_bytes), Some((fe, be))) = (plain_bytes, ctx) else {
+        let status = if plain_status == emit_status { "both-failed" } else { "differ" };
+        fields.push(S::kv("impl", [
+            S::k1("status", S::atom(status)),
+            S::k1("plain_status", S::atom(plain_status)),
+            S::k1("emit_status", S::atom(emit_status)),
+        ]));
+        return fields;
+    };
+    let emit_bytes: Vec<u8> = be.font.get().get().to_vec();
+    let file_bytes = std::fs::read(fontbe::paths::Paths::target_file(&ir_dir, &BeId::Font)).unwrap_or_default();
+
+    let a = audit(&ir_dir, &fe, &be);
+    let mut by_path: std::collections::BTreeMap<PathBuf, Vec<usize>> = Default::default();
+    for (k, it) in a.items.iter().enumerate() {
+        by_path.entry(it.2.clone()).or_default().push(k);
+    }
+    let shared: Vec<usize> = by_path.values().filter(|v| v.len() > 1).flatten().copied().collect();
+    let shared_kern = shared.iter().filter(|k| a.items[**k].1 == "kern").count();
+    let missing = a.items.iter().filter(|it| it.3.is_none()).count();
+    let checked = a.items.iter().filter(|it| it.3.is_some()).count();
+    let differs: Vec<usize> = (0..a.items.len()).filter(|k| a.items[*k].3 == Some(false)).collect();
+    let differs_kern_shared = differs.iter().filter(|k| a.items[**k].1 == "kern" && shared.contains(k)).count();
+    let differs_post = differs.iter().filter(|k| a.items[**k].1 == "post").count();
+    let differs_empty_glyph = differs.iter().filter(|k| a.items[**k].1 == "empty-glyph").count();
+    let mut files = vec![];
+    walk_files(&ir_dir, &mut files);
+    // `features.marker` is written by the FEA job itself (fontbe/src/features.rs), not through a context item
+    let marker = fontbe::paths::Paths::target_file(&ir_dir, &BeId::Features);
+    let unexpected: Vec<&PathBuf> = files.iter().filter(|f| !by_path.contains_key(*f) && **f != marker).collect();
+    let mut notes: Vec<String> = vec![];
+    for k in shared.iter().chain(differs.iter()).take(6) {
+        notes.push(format!("{} -> {}", a.items[*k].0, a.items[*k].2.strip_prefix(&ir_dir).unwrap().display()));
+    }
+    for f in unexpected.iter().take(3) {
+        notes.push(format!("file without id: {}", f.strip_prefix(&ir_dir).unwrap().display()));
+    }
+    fields.push(S::kv("impl", [
+        S::k1("status", S::atom("ok")),
+        S::k1("fonts_equal", S::bool(plain_bytes == emit_bytes && emit_bytes == file_bytes)),
+        S::k1("hash_plain", S::atom(fnv(&plain_bytes))),
+        S::k1("hash_emit", S::atom(fnv(&emit_bytes))),
+        S::k1("hash_font_file", S::atom(fnv(&file_bytes))),
+        S::k1("n_ids", S::usize(a.items.len())),
+        S::k1("n_files", S::usize(files.len())),
+        S::k1("ids_without_file", S::usize(missing)),
+        S::k1("ids_sharing_a_file", S::usize(shared.len())),
+        S::k1("kern_ids_sharing_a_file", S::usize(shared_kern)),
+        S::k1("files_without_id", S::usize(unexpected.len())),
+        S::k1("readback_checked", S::usize(checked)),
+        S::k1("readback_differs", S::usize(differs.len())),
+        S::k1("readback_differs_kern_shared", S::usize(differs_kern_shared)),
+        S::k1("readback_differs_post", S::usize(differs_post)),
+        S::k1("readback_differs_empty_glyph", S::usize(differs_empty_glyph)),
+        S::k1("notes", S::str(&notes.join("; "))),
+    ]));
+    fields
+    // `scratch` is removed here (TempDir drop)
+}
+
+fn run_emit(args: &Args) {
+    // head.created / head.modified come from the clock unless this is set
+    unsafe { std::env::set_var("SOURCE_DATE_EPOCH", "1730302089") };
+    let sources = corpus_sources();
+    crate::run_cases("c14emit", args, move |i| emit_case(i, &sources));
+}
+
 pub fn run(stream: &str, args: &Args) {
     match stream {
         "c14names" => run_names(args),
         "c14paths" => run_paths(args),
+        "c14emit" => run_emit(args),
         _ => unreachable!(),
     }
 }
